@@ -1786,19 +1786,14 @@ namespace gch
       }
 #endif
 
+      // Note: This accepts pointers to any object type because the memcpy paths are also selected
+      //       for contiguous ranges of a different (bitwise-compatible) element type.
+      template <typename U>
       static constexpr
-      value_ty *
-      to_address (value_ty *p) noexcept
+      U *
+      to_address (U *p) noexcept
       {
-        static_assert (! std::is_function<value_ty>::value, "value_ty is a function pointer.");
-        return p;
-      }
-
-      static constexpr
-      const value_ty *
-      to_address (const value_ty *p) noexcept
-      {
-        static_assert (! std::is_function<value_ty>::value, "value_ty is a function pointer.");
+        static_assert (! std::is_function<U>::value, "U is a function type.");
         return p;
       }
 
